@@ -133,9 +133,22 @@ func genC02(r *prng) *plan {
 	for i := 0; i < n; i++ {
 		if r.chance(65) {
 			// offer: who(0 honest,1 byzantine), block, item, mutation, lie mode, seed
-			p.Ops = append(p.Ops, opSpec{K: "offer", N: []int64{int64(r.intn(3) / 2), int64(r.intn(23)), int64(r.intn(4)), int64(r.intn(14)), int64(r.intn(4)), int64(r.u64() >> 1)}})
+			item := int64(r.intn(4))
+			mut := int64(r.intn(21))
+			who := int64(r.intn(3) / 2)
+			lie := int64(r.intn(4))
+			blk := int64(r.intn(23))
+			if r.chance(45) {
+				// targeted: a byzantine offer of a field-level corruption that fits the item, with an honest header source
+				who, lie = 1, 0
+				mut = map[int64][]int64{0: {12, 14, 15, 16, 17, 18, 19, 20}, 1: {12, 14, 15, 16, 17, 18}, 2: {11, 12, 14, 14, 15, 16, 17, 18}, 3: {14, 15, 16, 18}}[item][r.intn(4)]
+				if item == 2 && r.chance(60) {
+					blk = int64([]int{15, 16, 19, 20, 21}[r.intn(5)]) // the blocks with Shanghai-encoded bodies (two mainnet, three synthetic)
+				}
+			}
+			p.Ops = append(p.Ops, opSpec{K: "offer", N: []int64{who, blk, item, mut, lie, int64(r.u64() >> 1)}})
 		} else {
-			p.Ops = append(p.Ops, opSpec{K: "get", N: []int64{int64(r.intn(4)), int64(r.intn(23)), int64(r.intn(14)), int64(r.intn(3)), int64(r.u64() >> 1)}})
+			p.Ops = append(p.Ops, opSpec{K: "get", N: []int64{int64(r.intn(4)), int64(r.intn(23)), int64(r.intn(21)), int64(r.intn(3)), int64(r.u64() >> 1)}})
 		}
 	}
 	return p
@@ -320,6 +333,14 @@ func runC02(seed uint64) {
 				val = append([]byte{}, val...)
 				val[len(val)/2] ^= 0x01
 				desc = "one-bit-flip"
+			case mut >= 14 && mut <= 17:
+				// field-level corruption of a body / receipts / header container
+				if nv, d := fieldMutate(rs, op.n(2)%4, val, int(mut)); nv != nil {
+					val, desc = nv, d
+				}
+			case mut >= 18:
+				// the genuine content under a key that only resembles the right one
+				key, desc = keyVariant(rs, key, int(mut))
 			}
 			if val == nil {
 				val = []byte{}
@@ -405,6 +426,10 @@ func runC02(seed uint64) {
 			case mut == 13 && len(val) > 0:
 				val = append([]byte{}, val...)
 				val[len(val)/2] ^= 0x01
+			case mut >= 14 && mut <= 17:
+				if nv, _ := fieldMutate(rs, kind, val, int(mut)); nv != nil {
+					val = nv
+				}
 			}
 			mode := op.n(3) // 0: only B answers, 1: B and H, 2: only H
 			B.fallback = nil
@@ -546,4 +571,163 @@ func eraOf(b *hblock) string {
 		return "capella"
 	}
 	return "deneb"
+}
+
+// keyVariant: over-long, short or padded variants of a content key (the content stays genuine).
+func keyVariant(rs *prng, key []byte, mut int) ([]byte, string) {
+	k := append([]byte{}, key...)
+	switch rs.intn(5) {
+	case 0:
+		// junk between the selector and the payload
+		return append(append([]byte{k[0]}, rs.bytes(1+rs.intn(8))...), k[1:]...), "key-with-junk-before-payload"
+	case 1:
+		return append(k, rs.bytes(1+rs.intn(8))...), "key-with-trailing-junk"
+	case 2:
+		if len(k) > 2 {
+			return append([]byte{k[0]}, k[2:]...), "key-payload-truncated-left"
+		}
+	case 3:
+		if len(k) > 2 {
+			return k[:len(k)-1], "key-payload-truncated-right"
+		}
+	}
+	return append(append([]byte{k[0]}, make([]byte, 1+rs.intn(4))...), k[1:]...), "key-zero-padded"
+}
+
+// fieldMutate rebuilds a container with one field corrupted while the others stay genuine.
+func fieldMutate(rs *prng, item int64, val []byte, mut int) ([]byte, string) {
+	switch item {
+	case 2: // body
+		if len(val) < 12 {
+			return nil, ""
+		}
+		o0 := int(leU32(val))
+		n := 2
+		if o0 == 12 {
+			n = 3
+		} else if o0 != 8 {
+			return nil, ""
+		}
+		offs := make([]int, n+1)
+		for i := 0; i < n; i++ {
+			offs[i] = int(leU32(val[4*i:]))
+		}
+		offs[n] = len(val)
+		for i := 1; i <= n; i++ {
+			if offs[i] < offs[i-1] || offs[i] > len(val) {
+				return nil, ""
+			}
+		}
+		fields := make([][]byte, n)
+		for i := 0; i < n; i++ {
+			fields[i] = append([]byte{}, val[offs[i]:offs[i+1]]...)
+		}
+		desc := ""
+		switch mut {
+		case 14:
+			// uncles field: invalid or different RLP
+			fields[1] = [][]byte{{0x01}, {0xc1, 0x80}, {0xff}, {0xc0, 0x00}, rs.bytes(1 + rs.intn(6)), {}}[rs.intn(6)]
+			desc = "uncles-field-corrupted"
+		case 15:
+			// transactions: drop the last or duplicate the first
+			txs, err := decByteLists(fields[0])
+			if err != nil || len(txs) == 0 {
+				return nil, ""
+			}
+			if rs.chance(50) {
+				txs = txs[:len(txs)-1]
+				desc = "last-transaction-dropped"
+			} else {
+				txs = append(txs, txs[0])
+				desc = "transaction-duplicated"
+			}
+			fields[0] = sszLists(txs)
+			if len(txs) == 0 {
+				fields[0] = nil
+			}
+		case 16:
+			if n < 3 {
+				return nil, ""
+			}
+			wds, err := decByteLists(fields[2])
+			if err != nil || len(wds) < 2 {
+				return nil, ""
+			}
+			wds[0], wds[1] = wds[1], wds[0]
+			fields[2] = sszLists(wds)
+			desc = "withdrawals-reordered"
+		default:
+			if n < 3 {
+				return nil, ""
+			}
+			wds, err := decByteLists(fields[2])
+			if err != nil || len(wds) < 1 {
+				return nil, ""
+			}
+			fields[2] = sszLists(wds[:len(wds)-1])
+			if len(wds) == 1 {
+				fields[2] = nil
+			}
+			desc = "last-withdrawal-dropped"
+		}
+		out := make([]byte, 4*n)
+		off := 4 * n
+		for i, f := range fields {
+			putLeU32(out[4*i:], uint32(off))
+			off += len(f)
+		}
+		for _, f := range fields {
+			out = append(out, f...)
+		}
+		return out, desc
+	case 3: // receipts
+		rcs, err := decByteLists(val)
+		if err != nil || len(rcs) == 0 {
+			return nil, ""
+		}
+		switch mut {
+		case 14:
+			rcs = rcs[:len(rcs)-1]
+			if len(rcs) == 0 {
+				return []byte{}, "all-receipts-dropped"
+			}
+			return sszLists(rcs), "last-receipt-dropped"
+		case 15:
+			if len(rcs) < 2 {
+				return nil, ""
+			}
+			rcs[0], rcs[1] = rcs[1], rcs[0]
+			return sszLists(rcs), "receipts-reordered"
+		}
+		return sszLists(append(rcs, rcs[0])), "receipt-duplicated"
+	default: // header with proof
+		hdr, proof, err := decHeaderWithProof(val)
+		if err != nil {
+			return nil, ""
+		}
+		switch mut {
+		case 14:
+			return encHeaderWithProof(append(append([]byte{}, hdr...), 0x00), proof), "header-rlp-with-trailing-byte"
+		case 15:
+			return encHeaderWithProof(hdr, append(append([]byte{}, proof...), make([]byte, 32)...)), "proof-with-extra-node"
+		case 16:
+			if len(proof) > 32 {
+				return encHeaderWithProof(hdr, proof[:len(proof)-32]), "proof-one-node-short"
+			}
+		}
+		if len(proof) >= 64 {
+			p := append([]byte{}, proof...)
+			copy(p[:32], proof[32:64])
+			copy(p[32:64], proof[:32])
+			return encHeaderWithProof(hdr, p), "proof-nodes-swapped"
+		}
+	}
+	return nil, ""
+}
+
+func leU32(b []byte) uint32 {
+	return uint32(b[0]) | uint32(b[1])<<8 | uint32(b[2])<<16 | uint32(b[3])<<24
+}
+func putLeU32(b []byte, v uint32) {
+	b[0], b[1], b[2], b[3] = byte(v), byte(v>>8), byte(v>>16), byte(v>>24)
 }
